@@ -1,3 +1,6 @@
+#[global_allocator]
+static GLOBAL: saito_verif::alloc::Counting = saito_verif::alloc::Counting;
+
 use saito_verif::ctx::{install_panic_hook, Ctx, Tier};
 use saito_verif::props;
 
